@@ -94,6 +94,103 @@ def equations():
            native=lambda n: (n['PF5', 'inline'], '{ id: boolean, ' + n['Tg1', 'inline'][2:-2] + ' }'))
         eq('a lone flattened tagged struct is that struct (PF6)', one('PF6<T>', 'inline', ['T']), tg1,
            native=lambda n: (n['PF6', 'inline'], n['Tg1', 'inline']))
+    # systematic form of "inlining = referring by name": a struct with inlined fields equals its by-name twin after replacing, for
+    # every field type F, the text name(F) by inline(F) (wrappers Option / Vec / Box distribute over the replacement)
+    def replace_rope(rope, sub, new):
+        out_, i = [], 0
+        while i < len(rope):
+            if sub and rope[i:i + len(sub)] == sub:
+                out_ += new
+                i += len(sub)
+            else:
+                out_.append(rope[i])
+                i += 1
+        return out_
+
+    def inline_twin(label, inl_ty, named_ty, field_types, natives):
+        a, b = one(inl_ty, 'inline', ['T']), one(named_ty, 'inline', ['T'])
+        if a[0] != 'ok' or b[0] != 'ok':
+            eq(label, a, b)
+            return
+        want = b[1]
+        for ft in field_types:
+            nm, il = one(ft, 'name', ['T']), one(ft, 'inline', ['T'])
+            if nm[0] != 'ok' or il[0] != 'ok':
+                eq(label + f' [{ft}]', nm, il)
+                return
+            want = replace_rope(want, nm[1], il[1])
+
+        def nat(n, inl_ty=inl_ty, named_ty=named_ty, natives=natives):
+            w = n[named_ty.split('<')[0], 'inline']
+            for short in natives:
+                w = w.replace(n[short, 'name'], n[short, 'inline'])
+            return (n[inl_ty.split('<')[0], 'inline'], w)
+        eq(label, a, ('ok', want), native=nat)
+    inline_twin('inlined Option/Vec/Box of a generic struct = the by-name form with the struct\'s name replaced by its inline form (IO1 vs NO1)',
+                'IO1<T>', 'NO1<T>', ['Inner<T>'], ['Inner'])
+    inline_twin('inlined enums of every representation, newtype and tuple struct = the by-name form with names replaced (IE1 vs NE1)',
+                'IE1<T>', 'NE1<T>', ['EU<T>', 'ET<T>', 'EA<T>', 'NT1<T>', 'TS1<T>'], ['EU', 'ET', 'EA', 'NT1', 'TS1'])
+    # nested flatten, flatten next to rename_all / skip / optional: the flattened struct's properties arrive unchanged
+    if inner[0] == 'ok':
+        ib = inner[1][2:-2]
+        eq('flatten of a struct (FL1)', one('FL1<T>', 'inline', ['T']), ('ok', o('{ q: boolean, ') + ib + o(' }')),
+           native=lambda n: (n['FL1', 'inline'], '{ q: boolean, ' + n['Inner', 'inline'][2:-2] + ' }'))
+        eq('flatten of a struct that itself flattens (FL2)', one('FL2<T>', 'inline', ['T']), ('ok', o('{ r: boolean, q: boolean, ') + ib + o(' }')),
+           native=lambda n: (n['FL2', 'inline'], '{ r: boolean, ' + n['FL1', 'inline'][2:-2] + ' }'))
+        eq('rename_all renames own fields, not the flattened struct\'s (FL3)', one('FL3<T>', 'inline', ['T']), ('ok', o('{ AA: boolean, ') + ib + o(' }')),
+           native=lambda n: (n['FL3', 'inline'], '{ AA: boolean, ' + n['Inner', 'inline'][2:-2] + ' }'))
+        eq('skip / optional next to a flattened struct (FL4)', one('FL4<T>', 'inline', ['T']),
+           ('ok', o('{ o?: ') + [Hole('T.name')] + o(', ') + ib + o(' }')),
+           native=lambda n: (n['FL4', 'inline'], '{ o?: Arg1, ' + n['Inner', 'inline'][2:-2] + ' }'))
+    et = one('ET<T>', 'inline', ['T'])
+    if et[0] == 'ok':
+        eq('own field + flattened internally tagged enum (FE1)', one('FE1<T>', 'inline', ['T']), ('ok', o('{ k: boolean, } & (') + et[1] + o(')')),
+           native=lambda n: (n['FE1', 'inline'], '{ k: boolean, } & (' + n['ET', 'inline'] + ')'))
+    # ---- semantic equations: both sides are PARSED as TypeScript types (`&` binds tighter than `|`), references to corpus types are
+    # expanded by their own inline form, and the normal forms (props/tsparse.py) are compared.  `$T` is the abstract parameter.
+    from . import tsparse as TP
+    cache = {}
+
+    def inline_ast(name):
+        if name not in cache:
+            item = G['corpus'][name]
+            r = one(c07.type_text(name, item), 'inline', item['generics'])
+            cache[name] = (TP.parse(r[1]), [p_[1] for p_ in item['params'] if p_[0] == 'type']) if r[0] == 'ok' else None
+        return cache[name]
+
+    def expand(name, args):
+        return inline_ast(name) if name in G['corpus'] else None
+
+    def native_side(lhs_name, rhs_text):
+        def nat(n):
+            def nexp(name, args):
+                return (TP.parse([ord(c) for c in n[name, 'inline']]), []) if (name, 'inline') in n and name in G['corpus'] else None
+            l_ = TP.normalize(TP.parse([ord(c) for c in n[lhs_name, 'inline']]), nexp)
+            r_ = TP.normalize(TP.parse([ord(c) for c in re.sub(r'\$[A-Z]\w*', 'Arg1', rhs_text)]), nexp)
+            return TP.show(l_), TP.show(r_)
+        return nat
+    SEM = [('P2', 'P1<$T>'), ('P6', 'P7<$T>'), ('P9', 'P10<$T>'), ('P11', 'Array<$T>'), ('IO1', 'NO1<$T>'), ('IE1', 'NE1<$T>'),
+           ('G6', '{ k: boolean, a: Inner<$T> } & Inner<$T>'), ('G10', '{ a: $T, b: $T | null, c: Array<$T> }'),
+           ('P3', '{ a: boolean } & $T'), ('P4', '$T'), ('P8', '{ a: boolean } & $T & Inner<$T>'),
+           ('FL1', '{ q: boolean } & Inner<$T>'), ('FL2', '{ r: boolean } & FL1<$T>'), ('FL3', '{ AA: boolean } & Inner<$T>'),
+           ('FL4', '{ o?: $T } & Inner<$T>'), ('FE1', '{ k: boolean } & ET<$T>'),
+           ('PF1', '{ id: boolean } & En1<$T> & Inner<$T>'), ('PF2', 'En2<$T> & Inner<$T>'), ('PF3', '{ id: boolean } & Inner<$T> & En1<$T>'),
+           ('PF4', '{ e: En1<$T>, s: Inner<$T>, n: En2<$T> }'), ('PF5', '{ id: boolean } & Tg1<$T>'), ('PF6', 'Tg1<$T>'),
+           ('IT1', 'IT2<$T>'), ('IA1', 'IA2<$T>'), ('IX1', 'IX2<$T>'), ('IU1', 'IU2<$T>')]
+    for lhs, rhs in SEM:
+        if lhs not in G['corpus']:
+            continue
+        try:
+            li = inline_ast(lhs)
+            if li is None:
+                eq(f'semantic: {lhs} = {rhs}', one(c07.type_text(lhs, G['corpus'][lhs]), 'inline', G['corpus'][lhs]['generics']), ('ok', []))
+                continue
+            L = TP.normalize(li[0], expand)
+            R = TP.normalize(TP.parse_text(rhs), expand)
+        except TP.ParseError as e:
+            out.append((f'semantic: {lhs} = {rhs}', True, {'left': f'not a well-formed TypeScript type: {e}', 'right': rhs}, native_side(lhs, rhs)))
+            continue
+        eq(f'semantic: {G["corpus"][lhs]["src"]} denotes {rhs}', ('ok', o(TP.show(L))), ('ok', o(TP.show(R))), native=native_side(lhs, rhs))
     return out
 
 
